@@ -116,3 +116,11 @@ reg("C09", "^TestC09$", q=(100, 4, 1200), t=(1500, 16, 5400), batch=100,
          "the GER relation and the exit's own proofs (leaf->MER, or leaf->LER->RER) are verified with the reference verifier against the ground-truth L1 world.",
     note="Trusted: ref.VerifyProof/L1InfoLeaf/Sparse; world generator computes valid claim proofs from the reference trees.",
     design="§3 C09")
+
+reg("C10", "^TestC10$", q=(60, 4, 1200), t=(800, 16, 5400), batch=60,
+    technique="property-based testing: certificates from the real PP flow over rapid-generated worlds, through aggkit's real gRPC client (unix socket) and real storage; oracle = commitment recomputed from the wire message + ecrecover, 3-way field equality (in memory / wire / stored JSON), metamorphic single-field perturbations of every covered field (PP and FEP commitments, identity hash)",
+    text="Exploration: every certificate the node submits is captured three times (object handed to the client, decoded protobuf "
+         "message at an in-process server, JSON read back from SQLite); the signature must be the configured signer's over the "
+         "commitment recomputed from the wire, all covered fields must agree, and perturbing any covered field must change the commitment.",
+    note="Trusted: protobuf/grpc libraries, go-ethereum ecrecover, the re-implemented commitment formulas (documented in aggkit; the literal vectors in the repo's tests pin them to the Agglayer's).",
+    design="§3 C10")
